@@ -14,6 +14,8 @@ SYS = ["\\Seen", "\\Answered", "\\Flagged", "\\Deleted", "\\Draft"]
 # keywords incl. substring twins of each other and of system flags
 KEYWORDS = ["kw", "kw2", "akw", "$Forwarded", "Seen", "\\Seenish", "x\\Seen", "\\seen", "\\DeletedX",
             "$NotJunk", "Junkish", "$Junk", "\\RecentX", "\\Flag", "Work", "work"]
+# other spellings of the same flags (flag names are case-insensitive)
+CASE_TWINS = ["\\seen", "\\SEEN", "\\deleted", "\\DELETED", "\\flagged", "KW", "Kw", "\\recent", "\\RECENT", "$forwarded"]
 JUNKS = ["Junk", "NonJunk"]
 
 
@@ -21,7 +23,7 @@ JUNKS = ["Junk", "NonJunk"]
 # suite 1: direct calls of both CalculateNewFlags copies
 
 def gen_direct(rng, n):
-    pool = SYS + KEYWORDS + JUNKS + ["\\Recent"]
+    pool = SYS + KEYWORDS + JUNKS + ["\\Recent"] + CASE_TWINS
     cases = []
     for _ in range(n):
         k = rng.choice([0, 1, 2, 3, 4, 6])
@@ -88,7 +90,7 @@ Definition direct_spec_ok (c : str * list str * str * option (list str) * option
   let '(cur, new, item, r1, r2) := c in
   match item_of item, r1, r2 with
   | Some it, Some a, Some b => apply_ok it (fields cur) new a && apply_ok it (fields cur) new b
-  | None, Some a, Some b => set_eqb a (to_set (fields cur)) && set_eqb b (to_set (fields cur))
+  | None, Some a, Some b => set_eqb a (to_set_ci (fields cur)) && set_eqb b (to_set_ci (fields cur))
   | _, _, _ => false
   end.
 Definition direct_model_bad := Eval vm_compute in diff_positions Bool.eqb 0%nat (map direct_model_ok direct_cases) (map (fun _ => true) direct_cases).
@@ -147,7 +149,7 @@ def parse_nat_list(log, name):
 MB = {"INBOX": 1, "Sent": 2, "Drafts": 3, "Trash": 4, "Spam": 5}
 MBN = {v: k for k, v in MB.items()}
 CLS = {3: "junk_move"}
-CLEAN_KW = ["kw", "$Forwarded", "Work", "work", "$Label1"]
+CLEAN_KW = ["kw", "$Forwarded", "Work", "work", "$Label1", "\\seen", "\\DELETED", "KW", "\\recent"]
 SEARCH_KEYS = [("SEEN", "has", "\\Seen"), ("UNSEEN", "not", "\\Seen"), ("DELETED", "has", "\\Deleted"),
                ("UNDELETED", "not", "\\Deleted"), ("FLAGGED", "has", "\\Flagged"), ("UNFLAGGED", "not", "\\Flagged"),
                ("ANSWERED", "has", "\\Answered"), ("UNANSWERED", "not", "\\Answered"), ("DRAFT", "has", "\\Draft"),
@@ -191,7 +193,7 @@ def gen_history(rng, stream, nops):
     if stream == "clean":
         pool = SYS + CLEAN_KW + ["\\Recent"]
     elif stream == "twins":
-        pool = SYS + KEYWORDS + ["\\Recent"]
+        pool = SYS + KEYWORDS + CASE_TWINS + ["\\Recent"]
     else:
         pool = SYS + CLEAN_KW + ["\\Recent"]
     store_pool = pool + (JUNKS + ["$NotJunk"] if stream == "junk" else [])
@@ -231,8 +233,9 @@ def gen_history(rng, stream, nops):
         elif r < 0.77:
             others = [m for m in MB.values() if m != sel]
             dest = sel if rng.random() < (0.7 if stream == "samecopy" else 0.15) else rng.choice(others)
-            s = gen_set(rng, cnt[sel], True)
-            h.append({"k": "copy", "mb": sel, "set": s, "dest": dest})
+            uidmode = rng.random() < 0.5
+            s = gen_set(rng, cnt[sel], uidmode)
+            h.append({"k": "copy", "uid": uidmode, "mb": sel, "set": s, "dest": dest})
             cnt[dest] += 1
             used.add(dest)
         elif r < 0.9:
@@ -293,7 +296,7 @@ def driver_ops(sc):
             fl = " ".join(o["new"])
             send("A", "%sSTORE %s %s %s" % ("UID " if o["uid"] else "", set_text(o["set"]), o["raw"], "(%s)" % fl if o["paren"] else fl), None)
         elif k == "copy":
-            send("A", "UID COPY %s %s" % (set_text(o["set"]), MBN[o["dest"]]), None)
+            send("A", "%sCOPY %s %s" % ("UID " if o.get("uid", True) else "", set_text(o["set"]), MBN[o["dest"]]), None)
         elif k == "expunge":
             send("A", o["how"], None)
             if o["how"] == "CLOSE":
@@ -380,7 +383,7 @@ def coq_op(o):
         return "(%s %s %s %s %s %s %s)" % ("OUidStore" if o["uid"] else "OStore", C.coq_bool(o["ro"]), C.coq_bool(o["silent"]),
                                           cz(o["mb"]), coq_set(o["set"]), C.coq_str(o["item"]), coq_strs(o["new"]))
     if k == "copy":
-        return "(OUidCopy %s %s %s)" % (cz(o["mb"]), coq_set(o["set"]), cz(o["dest"]))
+        return "(%s %s %s %s)" % ("OUidCopy" if o.get("uid", True) else "OCopy", cz(o["mb"]), coq_set(o["set"]), cz(o["dest"]))
     if k == "append":
         return "(OAppend %s %s)" % (cz(o["mb"]), coq_strs(o["fl"]))
     if k == "expunge":
